@@ -488,7 +488,16 @@ func merge(t, r *ShardResult) {
 		t.Notes[k] = v
 	}
 	for _, s := range r.Samples {
-		if len(t.Samples) < 10 {
+		// distinct samples only (workers that sample "every n-th case" often pick the same first case)
+		dup := false
+		sj, _ := json.Marshal(s)
+		for _, e := range t.Samples {
+			if ej, _ := json.Marshal(e); string(ej) == string(sj) {
+				dup = true
+				break
+			}
+		}
+		if !dup && len(t.Samples) < 10 {
 			t.Samples = append(t.Samples, s)
 		}
 	}
